@@ -2,5 +2,5 @@ SPECIFICATION DiagSpec
 CONSTANTS
   Alphabet <- MCAlphabet
   MaxLen = 0
-INVARIANTS LineAgrees ColSane SampleLineOK
+INVARIANTS LineAgrees PrevNLAgrees ColSane SampleLineOK
 CHECK_DEADLOCK FALSE
